@@ -166,7 +166,7 @@ CHECKS = {
              "of each vendor the helper packages know, truncated and malformed variants, relays with and without relay-msg), all of them structure-aware mutated; raw frame lists; a stream of large inputs up to 65507 bytes "
              "(nested relays, nested IA, option floods, repeated v4 options, pointer fans, item floods). On every accepted value <= 4096 bytes: every exported non-mutating method reachable by a reflective walk (depth <= 4, "
              "arguments synthesised: none, Duration, option codes, indent, enterprise numbers, nil decoder) plus builders, relay operations, MAC extraction, ztpv4/ztpv6/netboot extractors, and netboot conversations over "
-             "all sequences of 0..3 recently decoded messages. Shape = (entry point, accept|error class, option codes / kinds); non-trivial iff accepted or the error is not 'buffer too short'.",
+             "all sequences of 0..4 messages drawn from the 3 most recently decoded ones. Shape = (entry point, accept|error class, option codes / kinds); non-trivial iff accepted or the error is not 'buffer too short'.",
         technique="crash monitor: recover() around every entry point and observer call + child process per shard with the current input kept in a MAP_SHARED record (attributes fatal errors) + in-process termination watchdog with solo re-run; second stage under -race (checkptr)",
         level_text="Any panic, fatal error, abnormal child exit or non-termination is a violation keyed by the first library frame of the stack; evidence reports the number of observer invocations and distinct (type, method) pairs called.",
         level_note="Go's memory safety turns out-of-bounds accesses into the panics monitored here; the -race stage adds checkptr. Pretty-printing is only exercised on inputs <= 4096 bytes, as the property says.",
